@@ -291,7 +291,7 @@ def c05_cases(ctx, bases, rnd):
     # sources with and without Seek
     skipm = [0x5A, 0x2A, 0x4D, 0x18]
     for bi, bf in enumerate(bases[:4]):
-        for ln in (3 | 0x40000000, 0x7FFFFFFF, 3 + bf["w"]["sinkLen"] + 1, 3 + bf["w"]["sinkLen"] + 100000):
+        for ln in (3 | 0x40000000, 0x7FFFFFFF, 3 | 0x80000000, 0xFFFFFFFF, 3 + bf["w"]["sinkLen"] + 1, 3 + bf["w"]["sinkLen"] + 100000):
             for seek in (False, True):
                 cases.append({"id": len(cases) + 1, "chunks": [{"bytes": skipm + le32(ln) + [9, 9, 9]}, {"file": bf["case"]["save"]}], "ops": [],
                               "cfg": {"conc": [1, 4][(bi + seek) % 2], "mode": ["read", "writeto"][bi % 2], "bufs": [4096], "seek": seek},
@@ -302,6 +302,9 @@ def c05_cases(ctx, bases, rnd):
     for cfg in ({"conc": 1, "mode": "read", "bufs": [4096]}, {"conc": 1, "mode": "writeto"}, {"conc": 4, "mode": "read", "bufs": [4096]}, {"conc": 4, "mode": "writeto"}):
         cases.append({"id": len(cases) + 1, "chunks": [{"bytes": LEGACY_MAGIC + le32(len(b1)) + b1 + le32(len(b2)) + b2}], "ops": [], "cfg": cfg,
                       "tag": {"base": -1, "mut": "legacy-linked-match"}})
+        # the same two blocks in a frame of the current format that declares its blocks INDEPENDENT
+        cases.append({"id": len(cases) + 1, "chunks": [{"bytes": FRAME_MAGIC + [0x60, 0x40, 0x82] + le32(len(b1)) + b1 + le32(len(b2)) + b2 + [0, 0, 0, 0]}], "ops": [], "cfg": cfg,
+                      "tag": {"base": -1, "mut": "independent-blocks-linked-match"}})
     # splices between two frames of different options
     for _ in range(30 if q else 300):
         x, y = rnd.sample(bases, 2)
